@@ -344,9 +344,16 @@ def glob_elem(rng):
 def rand_elem(rng, arenas, wide=0.08):
     if rng.random() < wide:
         k = rng.random()
-        if k < 0.3:
+        if k < 0.15:
             ver = rng.choice((4, 6))
             return ["n", ver, 0, 0]
+        if k < 0.3:
+            # coarse blocks next to each other at the bottom / top of a family (siblings that merge up to /0)
+            ver = rng.choice((4, 6))
+            w = gens.W[ver]
+            p = rng.randint(1, 34 if ver == 6 else 8)
+            i = rng.choice([0, 1, 2, 3, 2 ** p - 1, 2 ** p - 2]) % (2 ** p)
+            return [rng.choice(["n", "s"]), ver, i << (w - p), p]
         if k < 0.5:
             ver, v, p = gens.rand_block(rng)
             return [rng.choice(["n", "s"]), ver, v, p]
